@@ -117,7 +117,12 @@ func runRing(c RingCase, rec *h.Rec) error {
 		rec.Class("result=reference-panicked")
 		return nil
 	}
-	if d := diffPolyPrefix(snapPoly(refIn), orig, c.Level+1); d != "" {
+	// the coefficient-domain DivRound variants document p0 as scratch space (in-place argument): exempt from (a)
+	docScratch := c.Op == "DivRoundByLastModulus" || (c.Op == "DivRoundByLastModulusMany" && c.Nb > 0)
+	if docScratch {
+		rec.Class("p0=documented-scratch")
+	}
+	if d := diffPolyPrefix(snapPoly(refIn), orig, c.Level+1); d != "" && !docScratch {
 		key := prefix + ":input-mutated:p0"
 		msg := fmt.Sprintf("ring.%s(p0, p1) with distinct polynomials overwrote its input p0: %s", c.Op, d)
 		if !rec.Known(key, msg) {
@@ -141,7 +146,7 @@ func runRing(c RingCase, rec *h.Rec) error {
 		rec.Class("known=" + key)
 		return nil
 	}
-	if !c.Alias {
+	if !c.Alias && !docScratch {
 		if d := diffPolyPrefix(snapPoly(in), orig, c.Level+1); d != "" {
 			key := prefix + ":" + cause + ":input-mutated:p0"
 			msg := fmt.Sprintf("ring.%s overwrote its input p0: %s", c.Op, d)
